@@ -24,7 +24,20 @@ META = {
 }
 
 THEOREMS = [
-    "C18_stub",
+    "C18_finders_modelled",  # generated table: every class overriding find_duplicate_surfaces is a modelled finder
+    "C18_finder_types",      # generated table: the mnemonics built as finder classes
+    "C18_find_iff",          # the three finders return exactly the Spec.dup partners of self
+    "C18_dup_symm",          # the duplicate relation (hence the repaired Transform.equivalent) is symmetric
+    "C18_only",              # removed => mapped to a surviving duplicate
+    "C18_map_domain",        # domain of matching_map = to_delete
+    "C18_map_range",         # range of matching_map is disjoint from to_delete
+    "C18_removed_iff",       # to_delete = the numbers that are gone afterwards
+    "C18_region",            # every cell's region evaluates the same under the identification
+    "C18_same_sense",        # geometry' = geometry with leaves re-pointed, sides and operators untouched
+    "C18_clean",             # no leaf / cell.surfaces entry / collection member / periodic link is removed
+    "C18_untouched",         # non-duplicates survive; survivors and unaffected cells are unchanged
+    "C18_wf_preserved",      # the hypotheses hold again after the call
+    "C18_history",           # ... hence before every call of any sequence of calls
 ]
 
 UNIT = "U-dedupe (Model/Dedupe.lean vs mcnp_problem.remove_duplicate_surfaces)"
